@@ -251,6 +251,7 @@ GenQuickSuites == {
     Suite("request", 1, 1, {"empty", "other"}, PalRequestQ),\* 166      ReadRequest decision table
     Suite("mixed",   2, 1, AllFirst, PalMixed),             \* 660      everything on short bodies
     Suite("stamps",  2, 1, {"other"}, PalPver \cup PalEmpty),\* version stamps, empty-valued keys
+    Suite("pver",    1, 3, {"other"}, {Zero, PverOnly, ReqV(1)}),  \* 40  several stamps on one stream
     SuiteWrite("write", AllWriteReq, AllWriteRes) }         \* 79       the real writers
 GenThoroughSuites == {
     Suite("unary",   1, 3, AllFirst, PalUnary),                          \* 5 * 400
